@@ -448,7 +448,7 @@ func TestVerifC04(t *testing.T) {
 
 	perKind, maxSteps, maxAdds := 5, 90, 8
 	if tier == "thorough" {
-		perKind, maxSteps, maxAdds = 40, 160, 12
+		perKind, maxSteps, maxAdds = 90, 160, 12
 	}
 	if v, err := strconv.Atoi(os.Getenv("VERIF_C04_CASES")); err == nil && v > 0 {
 		perKind = v
